@@ -34,6 +34,9 @@ def blob(e):
 
 
 def rules(ck, P):
+    # the pmtiles target keeps its (compressed) metadata and root directory apart: see wire.pm_layout_rules
+    from . import wire
+    wire.pm_layout_rules(ck, P)
     leaves = comp.leaf_summaries(P)
     good = {q: s for q, s in leaves.items() if s}
     ck.anchor("E-COMP-LEAF", "codec leaf functions", good, 5)
